@@ -90,12 +90,12 @@ def gen_case(rng, big=False, cid=0):
         u, b, a = contrib()
         pages.append({"title": t, "ns": 10, "revs": newrevs(), "redirect": "",
                       "uses": [x for x in tpls[k + 1:] if rng.random() < 0.7],
-                      "images": [x for x in imgtitles if rng.random() < 0.4],
+                      "images": [x for x in imgtitles if rng.random() < 0.5],
                       "users": u, "bots": b, "anon": a})
     arts = ART_NAMES[:nart]
     for t in arts:
         u, b, a = contrib()
-        imgs = [x for x in imgtitles if rng.random() < 0.4]
+        imgs = [x for x in imgtitles if rng.random() < 0.6]
         if rng.random() < 0.1:
             imgs.append(ghostimg)
         pages.append({"title": t, "ns": 0, "revs": newrevs(), "redirect": "",
